@@ -18,12 +18,14 @@ EXPLANATION = [
     'C03.controller-reply: for every registered HCI command class (and the '
     'unknown-opcode case) compose class kind x handler path summary (reply '
     'calls per path, returns value/None) x the dispatcher\'s own branches and '
-    'require exactly one Command Complete/Status.',
+    'require exactly one Command Complete/Status. A send to the virtual link (send_ll_control_pdu / send_lmp_packet) may raise '
+    'InvalidArgumentError when nobody on the link owns the destination: on that exit the handler must have replied exactly once itself.',
     'C03.procedures: every procedure accepted as pending reaches its '
     'completion event, a registered continuation or a pending slot on every '
-    'path; cancel concludes the pending procedure.',
+    'path; cancel concludes the pending procedure. For all ten procedures the link send is modelled as possibly raising '
+    '(peer unreachable or gone from the link): the exceptional exit after acceptance must also have concluded the procedure.',
     'Not decided: opcode matching under delivery delays, liveness when the peer '
-    'disappears mid-procedure (schedules).',
+    'stops answering without leaving the link (schedules).',
 ]
 ASSUMPTIONS = [
     'asyncio callbacks run to completion (no pre-emption between statements without await)',
@@ -311,6 +313,12 @@ class ReplyCount(paths.Domain):
                 return 1
         return 0
 
+    def may_raise(self, call):
+        # the virtual link raises InvalidArgumentError when nobody on the link owns the destination address
+        if call_attr(call) in ('send_ll_control_pdu', 'send_lmp_packet'):
+            return 'InvalidArgumentError'
+        return False
+
     def event(self, node, v):
         if isinstance(node, ast.Call):
             k = self.is_reply(node)
@@ -448,6 +456,12 @@ def controller_reply(ctx):
         outs = set()
         wit = {}
         for kind, st in res.items():
+            if kind == 'raise:InvalidArgumentError':
+                # the peer cannot be reached: the handler is left by the exception, the dispatcher adds nothing
+                for v, w in st.items():
+                    outs.add(('unreachable-peer', v))
+                    wit[('unreachable-peer', v)] = w
+                continue
             if kind.startswith('raise'):
                 continue
             rk = 'none' if kind in ('fall', 'ret:none') else 'value'
@@ -484,6 +498,10 @@ def controller_reply(ctx):
         sync = 1 if kind == 'sync' else 0
         problems = []
         for rk, n in sorted(outs):
+            if rk == 'unreachable-peer':
+                if n != 1:
+                    problems.append(f'the link send raises (peer not reachable) with {n} reply call(s) made: the command gets {n} replies' + (f' (via {" ".join(wit.get((rk, n), ()))})' if wit.get((rk, n)) else ''))
+                continue
             for d in sorted(dtable[(sync, 1 if rk == 'none' else 0)]):
                 total = n + d
                 if total != 1:
@@ -658,7 +676,7 @@ def procedures(ctx):
         if fn is None:
             R.bad(rule, key, f'anchor missing: {CTRL}.{hname}')
             continue
-        absent = hname in ('on_hci_create_connection_command', 'on_hci_disconnect_command')  # the peer may not (or no longer) be on the link
+        absent = True  # the peer may not (or no longer) be on the link: the virtual link raises when nobody owns the destination
         dom = ProcDomain(reach, pred, prune, peer_may_be_absent=absent)
         res = paths.run(fn, dom, PS(None, 0))
         bad = []
